@@ -136,7 +136,7 @@ func (w *c33World) Setup(s *dsim.Sim) {
 	}
 	w.ctrl = c
 	s.KeyAlias = func(k string) string { return "X" }
-	s.ArmFraction([]int{100, 100, 50, 0}[t.Draw(4, "arm-pct")], []string{"holdopen/"})
+	s.ArmFraction([]int{100, 100, 50, 0}[t.Draw(4, "arm-pct")], []string{"holdopen/", "go:link/hold-open/"})
 	_, _ = c.HandleDirective(context.Background(), w.di)
 	w.links = map[int]bool{}
 	w.inflight = map[int]bool{}
